@@ -155,7 +155,7 @@ def run_case_shards(prop, header, case_type, cases, shard=300, timeout=600, tag=
             running.append((launch(fn), fn, n))
         p, fn, n = running.pop(0)
         out, err = p.communicate()
-        m = re.search(r"=\s*\((\d+),\s*\[([\d;\s]*)\]\)", out.replace("\n", " "))
+        m = re.search(r"=\s*\((\d+)(?:%nat)?,\s*\[([\d;\s]*)\](?:%nat)?\)", out.replace("\n", " ").replace("%nat;", ";").replace("%nat]", "]"))
         if p.returncode != 0 or not m or int(m.group(1)) != n:
             broken.append({"shard": fn, "rc": p.returncode, "stderr": err[-2000:], "stdout": out[-500:]})
             continue
